@@ -19,47 +19,47 @@ PROPS = {
                 technique="deterministic simulation: seeded histories of selections, reloads, availability flips and clock advances on the real balancer; sliding-window share oracle; tape-shrunk replay"),
 }
 
-PROPS["C03"] = dict(engine="A", runs=(8000, 300000), modes=[("nofault", 0.25), ("swarm", 0.75)], race=False,
+PROPS["C03"] = dict(expect_probes=["cross_retry_success", "blackhole_rejected", "balance_error", "select_during_ramp", "restart_mark"], engine="A", runs=(8000, 300000), modes=[("nofault", 0.25), ("swarm", 0.75)], race=False,
     level="exploration", design="§6 Engine A / C03",
     level_text="Seeded exploration of sequential histories (selections with retries, availability flips, reloads, basic-conf reloads, clock advances through slow-start ramps) on the real BalTable/BalanceGslb/BalanceRR built through the real file loaders; every returned target is checked against the harness's own ground truth (what it configured and marked down) and errors are demanded exactly when that ground truth has no eligible target.",
     level_note="Trusted: simrt, harness ground-truth model; designated sub-cluster of a key is learnt from a fresh all-up instance of the same real code (uses the determinism that C02 checks).",
     technique="deterministic simulation: seeded fault/reload histories on the real balancer with a ground-truth eligibility oracle; tape-shrunk replay")
-PROPS["C04"] = dict(engine="A", runs=(8000, 300000), modes=[("nofault", 0.25), ("swarm", 0.75)], race=False,
+PROPS["C04"] = dict(expect_probes=["wlc_checked"], engine="A", runs=(8000, 300000), modes=[("nofault", 0.25), ("swarm", 0.75)], race=False,
     level="exploration", design="§6 Engine A / C04",
     level_text="Seeded histories of connection open/close, availability flips and reloads on the real balancer in WLC mode; each pick is compared by exact cross-multiplication with every eligible backend using connection counts the harness itself drove.",
     level_note="Trusted: simrt, harness's own connection counters (ground truth), integer cross-multiplication.",
     technique="deterministic simulation: seeded connection/fault histories with exact rational minimality oracle")
-PROPS["C02"] = dict(engine="A", runs=(6000, 200000), modes=[("nofault", 0.25), ("swarm", 0.75)], race=False,
+PROPS["C02"] = dict(expect_probes=["partition_subcluster_checked", "partition_sticky_checked", "sticky_compared"], engine="A", runs=(6000, 200000), modes=[("nofault", 0.25), ("swarm", 0.75)], race=False,
     level="exploration", design="§6 Engine A / C02",
     level_text="Within simulated histories (flips, reloads, basic-conf changes) every sticky/hash decision of the instance with history is compared with a fresh instance of the real code built from a permuted configuration listing (and, once available, a seeded map-iteration order) in the same eligibility state; plus an exact residue-partition count per target. Input/configuration-driven; the simulation contributes history and ordering independence.",
     level_note="Trusted: simrt, the twin construction (fresh real instance), murmur3 residue classification via the repo's own GetHash.",
     technique="deterministic simulation: history-vs-fresh-twin differential under seeded config order, residue partition count")
 
-PROPS["C05"] = dict(engine="A", runs=(4000, 200000), modes=[("nofault", 0.2), ("swarm", 0.8)], race=True, race_div=4,
+PROPS["C05"] = dict(expect_probes=["algo_0", "algo_1", "algo_2", "algo_3", "algo_4"], engine="A", runs=(4000, 200000), modes=[("nofault", 0.2), ("swarm", 0.8)], race=True, race_div=4,
     level="exploration", design="§6 Engine A / C05",
     level_text="Seeded search over lock-granular interleavings of 2-4 selector tasks, a task driving all five BalanceRR algorithms, an availability flapper, a reloader (real loaders + BalTableReload) and a slow-start setter on the real balancer; every Lock/RLock/Unlock is a scheduler decision. Oracle: no panic, no deadlock (stuck), no livelock (step budget / per-call step bound after mutators stop). A quarter of the runs is repeated in a -race build in which the scheduler's own hand-off is hidden from the detector, so reports are BFE's own missing happens-before for that interleaving.",
     level_note="Trusted: simrt scheduler and simsync (lock semantics incl. RWMutex without writer preference), Go race detector; a CPU-only infinite loop without any lock operation would trip the real-time watchdog (exit 2), not a verdict.",
     technique="deterministic simulation: seeded lock-granular schedule search with fault injection (flaps, reloads, clock), deadlock/livelock detection, race detector under controlled schedules")
 
-PROPS["C09"] = dict(engine="A", runs=(6000, 200000), modes=[("nofault", 0.25), ("swarm", 0.75)], race=False,
+PROPS["C09"] = dict(expect_probes=["survivor_checked", "removed_checked", "new_selectable_checked", "rename", "duplicate_address"], engine="A", runs=(6000, 200000), modes=[("nofault", 0.25), ("swarm", 0.75)], race=False,
     level="exploration", design="§6 Engine A / C09",
     level_text="Seeded histories of 1-10 reloads (backend/sub-cluster/cluster adds and removes, weight and gslb-weight changes, renames, duplicate addresses, clusters disappearing and reappearing) interleaved with availability flips, connection counts, failure marks and selections, all through the real loaders and BalTableReload. After every reload: survivors keep Avail/ConnNum/FailNum and are not released, every removed object has its close channel closed (a second release panics and is caught), nothing removed is ever selected again, every new eligible backend is selected within 2W picks.",
     level_note="Trusted: simrt, the harness's identity model (cluster, sub-cluster, addr:port, name); object identity of removed backends is taken from a snapshot of the balancer's own list before the reload.",
     technique="deterministic simulation: seeded reload histories on the real balancer with survivor/release/zombie/new oracles; tape-shrunk replay")
 
-PROPS["C21"] = dict(engine="H1", runs=(20000, 600000), modes=[("nofault", 0.25), ("swarm", 0.75)], race=True, race_div=8,
+PROPS["C21"] = dict(expect_probes=["porcupine_ok", "write_refused", "break_seen_by_reader", "close_early"], engine="H1", runs=(20000, 600000), modes=[("nofault", 0.25), ("swarm", 0.75)], race=True, race_div=8,
     level="exploration", design="§6 Engine H / C21",
     level_text="Seeded search over mutex/cond-granular interleavings of a writer, a reader, a closer and an optional breaker on the real Pipe (buffer sizes 1-64, write sizes 0-80, read buffers 1-40). Oracles: stream invariants (bytes read are a prefix of bytes accepted, exactly once, in order; close only after drain; break immediate for reads invoked after it returned; n<len only with an error), lost-wake-up/deadlock detection, and porcupine linearizability of every recorded history against a sequential bounded-FIFO model; a -race variant.",
     level_note="Trusted: simrt/simsync (Cond is implemented on the scheduler, FIFO wake-up like sync.Cond), porcupine v1.3.0, the 60-line sequential model. One reader, one writer (the way HTTP/2 and SPDY use the pipe).",
     technique="deterministic simulation: seeded lock/cond-granular schedule search, stream invariants + porcupine linearizability vs a sequential model, race detector under controlled schedules")
 
-PROPS["C53"] = dict(engine="H2", runs=(20000, 600000), modes=[("nofault", 0.25), ("swarm", 0.75)], race=False,
+PROPS["C53"] = dict(expect_probes=["some_denied"], engine="H2", runs=(20000, 600000), modes=[("nofault", 0.25), ("swarm", 0.75)], race=False,
     level="exploration", design="§6 Engine H / C53",
     level_text="Seeded timed request histories (1-3 keys, 5-60 requests, gaps from 0 to several periods incl. exact window/jail boundary instants, rule reloads in between) on the simulator's fake clock through the real module handler, rule table and rule-file loader; every verdict is compared with a small fixed-window reference model that keeps a set of admissible states where a request falls exactly on a boundary instant.",
     level_note="Trusted: simrt fake clock (synctest), the reference model (fixed window opened by the first request after the previous one expired; > Threshold in a window jails until window end + StayPeriod). Sequential per the property's quantifier (histories, inputs); dictionaries sized so that LRU eviction is not in play.",
     technique="deterministic simulation: seeded timed histories on a simulated clock vs an executable reference model (state-set refinement at boundary instants)")
 
-PROPS["C06"] = dict(engine="B", runs=(6000, 200000), modes=[("nofault", 0.25), ("swarm", 0.75)], race=True, race_div=8,
+PROPS["C06"] = dict(expect_probes=["up_transition_checked", "checker_ran"], engine="B", runs=(6000, 200000), modes=[("nofault", 0.25), ("swarm", 0.75)], race=True, race_div=8,
     level="exploration", design="§6 Engine B / C06",
     level_text="Seeded search over interleavings of 1-3 reporter tasks (OnFail/OnSuccess scripts with simulated gaps), the real check() goroutine, a scripted probe listener on the simulated network whose verdict per probe (accept / refuse / time out / slow accept) comes from the tape, and an optional Release, on the fake clock (intervals 10 ms-10 s). Oracles over the seq-stamped history: down exactly at FailNum consecutive failures (exact for one reporter with an ambiguity range around recoveries, interval-based for several), at most one live checker task at every scheduler step, every recovery preceded by SuccNum consecutive successful probes, at most one probe after Release and checker exit within bounded simulated time; -race variant.",
     level_note="Trusted: simrt/simnet, the task registry (a checker is a task whose entry function is backend.check with this backend as first argument), in-package read of the avail field at quiescence. TCP check mode only (HTTP mode goes through net/http, not simulated).",
